@@ -323,7 +323,11 @@ func natNote(fr *frame, fn *ssa.Function, args []value) value {
 
 func natLog(fr *frame, fn *ssa.Function, args []value) value {
 	if fr.i.verbose {
-		fmt.Fprintln(fr.i.h.logw, "LOG:", toString(args[0]))
+		d := toString(args[0])
+		if e, ok := args[0].(iface); ok {
+			d = panicString(fr.i, e)
+		}
+		fmt.Fprintln(fr.i.h.logw, "LOG:", d)
 	}
 	return nil
 }
